@@ -352,7 +352,11 @@ pub(crate) fn add_int_multinom<W, R, T>(
         XFuncSpec::new(&[&XSequenceType::xtype(X_INT.clone())], X_INT.clone()),
         XStaticFunction::from_native(|args, ns, _tca, rt| {
             let a0 = xraise!(eval(&args[0], ns, &rt)?);
-            let Some(s) = to_native!(a0, XSequence::<W, R, T>).diter(ns, rt.clone()) else { return xerr(ManagedXError::new("sequence is infinite", rt)?); };
+            let seq0 = to_native!(a0, XSequence::<W, R, T>);
+            let Some(len0) = seq0.len() else { return xerr(ManagedXError::new("sequence is infinite", rt)?); };
+            // one integer per element is held while the coefficient is computed
+            rt.can_allocate(len0.saturating_mul(std::mem::size_of::<LazyBigint>()))?;
+            let Some(s) = seq0.diter(ns, rt.clone()) else { return xerr(ManagedXError::new("sequence is infinite", rt)?); };
 
             let mut s = xraise!(s.map(|v|->XResult<LazyBigint, W, R, T>{
                 Ok(Ok(to_primitive!(forward_err!(v?), Int).clone()))
